@@ -90,4 +90,15 @@ var checks = map[string]*Check{
 		Assumptions: commonAssumptions,
 		RealStub:    coreRealStub,
 	},
+	"C06": {
+		Legs: []Leg{
+			{World: "C06", Weight: 4},
+			{World: "C06/nofault", Weight: 1},
+			{World: "C06", Race: true, Weight: 2},
+		},
+		Probes:      []string{"early_5xx_while_body_streaming", "retry_attempt_seen"},
+		Rule:        "Real agent (response forwarder + http.Transport) vs a byte-level fake proxy: per upload attempt a scripted fault {5xx, reset, close, none} at a byte offset of the raw request stream (header block, body offset 0/1/around 4096/anywhere/after the terminating chunk), 5xx answered while the body is still streaming with or without draining; response sizes placing the serialised upload around the 4096-byte replay buffer, tiny and large; SimNet buffers 512 B..64 KiB park the previous attempt's body writer. Oracle: every acknowledged complete attempt parses to exactly the backend's response; at most 3 attempts; no forwarder goroutine blocked at the end.",
+		Assumptions: commonAssumptions,
+		RealStub:    coreRealStub,
+	},
 }
